@@ -17,11 +17,8 @@ set_option Elab.async false
 namespace KlogV.Regexes
 open KlogV.Rx
 
-theorem date : Tie Gen.rx_klog_datePattern Gen.rx_klog_datePattern_anchors Gen.rx_klog_datePattern_unsupported Expect.date true true := by
-  decide +kernel
-theorem time : Tie Gen.rx_klog_timePattern Gen.rx_klog_timePattern_anchors Gen.rx_klog_timePattern_unsupported Expect.time true true := by
-  decide +kernel
-theorem duration : Tie Gen.rx_klog_durationPattern Gen.rx_klog_durationPattern_anchors Gen.rx_klog_durationPattern_unsupported Expect.duration true true := by
-  decide +kernel
+theorem date : tied Gen.allRegexes Expect.date true true = true := by decide +kernel
+theorem time : tied Gen.allRegexes Expect.time true true = true := by decide +kernel
+theorem duration : tied Gen.allRegexes Expect.duration true true = true := by decide +kernel
 
 end KlogV.Regexes
